@@ -483,10 +483,11 @@ func (it *interp) stmt(s ast.Stmt, sc *scope) ctrl {
 		}
 		fail("unsupported call statement")
 	case *ast.ReturnStmt:
-		it.ret = it.ret[:0]
+		var vals []uint64 // evaluated first: a result expression may itself call (and return from) a function
 		for _, r := range x.Results {
-			it.ret = append(it.ret, it.expr(r, sc))
+			vals = append(vals, it.expr(r, sc))
 		}
+		it.ret = vals
 		return cReturn
 	case *ast.BranchStmt:
 		if x.Label != nil {
@@ -694,9 +695,25 @@ type Facts struct {
 	HasGo           bool
 	MemVars         int
 	DefineMem       []string // name := expr with a memory (non reg_) name
+	// shadowing (Go block scoping): an inner var / := of a name that is visible from an enclosing scope
+	Shadowing int
+	// declarations met in a compiling context that has no variable map of its own (switch case bodies, the
+	// init clause of a for): the compiler files them in the enclosing block's map
+	LeakDecl      []string // … of a name that is also visible further out: the inner binding outlives its Go scope
+	DefineIgnored []string // name := … where that map already holds the name: the statement is dropped
+	RedeclSameMap []string // var name … where that map already holds the name: clean "name already used"
 }
 
-type factScope struct{ m, r int } // identity of the variable map and of the result buffer of a compiling context
+// gbind is one Go-level binding of a name (block scoping as the language defines it).
+type gbind struct {
+	shadows     *gbind
+	wasShadowed bool // an inner binding of the same name has come and gone
+}
+
+type factScope struct {
+	m, r int  // identity of the variable map and of the result buffer of a compiling context
+	ctx  bool // an if/for/switch context: shares the map of the scope it was met in
+}
 
 type factWalker struct {
 	f     *Facts
@@ -707,6 +724,69 @@ type factWalker struct {
 	scopes []factScope
 	maps   map[int]map[string]bool
 	next   int
+	gsc    []map[string]*gbind // Go's scopes, innermost last
+}
+
+func (w *factWalker) goPush() { w.gsc = append(w.gsc, map[string]*gbind{}) }
+func (w *factWalker) goPop() {
+	for _, b := range w.gsc[len(w.gsc)-1] {
+		if b.shadows != nil {
+			b.shadows.wasShadowed = true
+		}
+	}
+	w.gsc = w.gsc[:len(w.gsc)-1]
+}
+func (w *factWalker) goFind(n string) *gbind {
+	for i := len(w.gsc) - 1; i >= 0; i-- {
+		if b, ok := w.gsc[i][n]; ok {
+			return b
+		}
+	}
+	return nil
+}
+func (w *factWalker) goDecl(n string) {
+	b := &gbind{shadows: w.goFind(n)}
+	if b.shadows != nil {
+		w.f.Shadowing++
+		w.lab("shadowing")
+	}
+	w.gsc[len(w.gsc)-1][n] = b
+}
+func (w *factWalker) goWrite(n string) {
+	if b := w.goFind(n); b != nil && b.shadows != nil {
+		w.lab("shadow-assign-inside")
+	}
+}
+func (w *factWalker) goRead(n string) {
+	if b := w.goFind(n); b != nil {
+		if b.wasShadowed {
+			w.lab("shadow-read-after")
+		}
+		if b.shadows != nil {
+			w.lab("shadow-read-inside")
+		}
+	}
+}
+
+// declare files a name the way the compiler does and records what that means for a shadowing declaration.
+func (w *factWalker) declare(n string, define bool) {
+	top := w.top()
+	if w.maps[top.m][n] {
+		if define {
+			w.f.DefineIgnored = append(w.f.DefineIgnored, n)
+			w.lab("define-of-name-in-same-map")
+		} else {
+			w.f.RedeclSameMap = append(w.f.RedeclSameMap, n)
+			w.lab("var-of-name-in-same-map")
+		}
+	} else if top.ctx {
+		if _, visible := w.foundIn(n); visible {
+			w.f.LeakDecl = append(w.f.LeakDecl, n)
+			w.lab("shadowing-decl-without-own-map")
+		}
+	}
+	w.def(n)
+	w.goDecl(n)
 }
 
 func isRegName(n string) bool { return len(n) > 4 && n[:4] == "reg_" }
@@ -716,9 +796,9 @@ func (w *factWalker) top() factScope { return w.scopes[len(w.scopes)-1] }
 func (w *factWalker) pushBlock() {
 	m := w.fresh()
 	w.maps[m] = map[string]bool{}
-	w.scopes = append(w.scopes, factScope{m, w.top().r})
+	w.scopes = append(w.scopes, factScope{m, w.top().r, false})
 }
-func (w *factWalker) pushCtx()     { w.scopes = append(w.scopes, factScope{w.top().m, w.fresh()}) }
+func (w *factWalker) pushCtx()     { w.scopes = append(w.scopes, factScope{w.top().m, w.fresh(), true}) }
 func (w *factWalker) pop()         { w.scopes = w.scopes[:len(w.scopes)-1] }
 func (w *factWalker) def(n string) { w.maps[w.top().m][n] = true }
 
@@ -737,6 +817,8 @@ func (w *factWalker) lab(l string) { w.f.Labels[l] = true }
 func (w *factWalker) exprFacts(e ast.Expr) {
 	ast.Inspect(e, func(n ast.Node) bool {
 		switch x := n.(type) {
+		case *ast.Ident:
+			w.goRead(x.Name)
 		case *ast.BinaryExpr:
 			switch x.Op {
 			case token.ADD, token.MUL, token.EQL:
@@ -797,7 +879,7 @@ func (w *factWalker) stmt(s ast.Stmt) {
 				continue
 			}
 			for _, n := range vs.Names {
-				w.def(n.Name)
+				w.declare(n.Name, false)
 				switch t := vs.Type.(type) {
 				case *ast.Ident:
 					if t.Name == "bool" {
@@ -824,7 +906,7 @@ func (w *factWalker) stmt(s ast.Stmt) {
 		if x.Tok == token.DEFINE {
 			for _, l := range x.Lhs {
 				if id, ok := l.(*ast.Ident); ok {
-					w.def(id.Name)
+					w.declare(id.Name, true)
 					if isRegName(id.Name) {
 						w.lab("define-reg")
 					} else {
@@ -833,14 +915,23 @@ func (w *factWalker) stmt(s ast.Stmt) {
 					}
 				}
 			}
-		} else if len(x.Lhs) > 1 {
-			w.lab("assign-multi")
 		} else {
-			w.lab("assign")
+			for _, l := range x.Lhs {
+				if id, ok := l.(*ast.Ident); ok {
+					w.goWrite(id.Name)
+				}
+			}
+			if len(x.Lhs) > 1 {
+				w.lab("assign-multi")
+			} else {
+				w.lab("assign")
+			}
 		}
 	case *ast.IncDecStmt:
 		w.lab("incdec")
 		if id, ok := x.X.(*ast.Ident); ok {
+			w.goWrite(id.Name)
+			w.goRead(id.Name)
 			if r, ok := w.foundIn(id.Name); ok && r != w.top().r {
 				w.f.HoistedIncDec = append(w.f.HoistedIncDec, id.Name)
 				w.lab("incdec-across-contexts")
@@ -848,7 +939,9 @@ func (w *factWalker) stmt(s ast.Stmt) {
 		}
 	case *ast.BlockStmt:
 		w.pushBlock()
+		w.goPush()
 		w.stmts(x.List)
+		w.goPop()
 		w.pop()
 	case *ast.IfStmt:
 		w.f.Branches++
@@ -859,10 +952,12 @@ func (w *factWalker) stmt(s ast.Stmt) {
 		}
 		w.exprFacts(x.Cond)
 		w.pushCtx()
+		w.goPush()
 		w.stmt(x.Body)
 		if x.Else != nil {
 			w.stmt(x.Else)
 		}
+		w.goPop()
 		w.pop()
 	case *ast.ForStmt:
 		w.f.Loops++
@@ -876,6 +971,7 @@ func (w *factWalker) stmt(s ast.Stmt) {
 		}
 		// init and post are compiled in the loop's own context, which shares the enclosing variable map
 		w.pushCtx()
+		w.goPush()
 		if x.Init != nil {
 			w.stmt(x.Init)
 		}
@@ -886,6 +982,7 @@ func (w *factWalker) stmt(s ast.Stmt) {
 		if x.Post != nil {
 			w.stmt(x.Post)
 		}
+		w.goPop()
 		w.pop()
 	case *ast.SwitchStmt:
 		w.f.Branches++
@@ -910,7 +1007,9 @@ func (w *factWalker) stmt(s ast.Stmt) {
 					}
 				}
 			}
-			w.stmts(cc.Body) // no scope of its own in the compiler
+			w.goPush() // a scope of its own in Go, none in the compiler
+			w.stmts(cc.Body)
+			w.goPop()
 		}
 		w.pop()
 	case *ast.ExprStmt:
@@ -976,11 +1075,13 @@ func StaticFacts(src string) (*Facts, error) {
 		fd := w.funcs[n]
 		pm := w.fresh()
 		w.maps[pm] = map[string]bool{}
-		w.scopes = []factScope{{pm, w.fresh()}}
+		w.scopes = []factScope{{pm, w.fresh(), false}}
+		w.gsc = []map[string]*gbind{{}}
 		if fd.Type.Params != nil {
 			for _, p := range fd.Type.Params.List {
 				for _, pn := range p.Names {
 					w.def(pn.Name)
+					w.goDecl(pn.Name)
 				}
 			}
 			if n != "main" && len(fd.Type.Params.List) > 0 {
